@@ -79,6 +79,25 @@ UNIT = {
         fn("rational_from_number", extra=[("replace", "Rational::try_from(f).ok()", "rational_try_from_f64(f)", "R10"),
                                                ("replace", "impl Fn() -> MachineStub + 'static", "StubGen", "R4")]),
         fn("round", extra=[("replace", "(*f).round()", "f64_round(f.0)", "R10")]),
+        {"fn": "rnd_i", "file": F_AR, "rewrites": [("replace", """let f = f.floor();
+
+            const FIXNUM_MIN_TO_F: OrderedFloat<f64> = OrderedFloat(Fixnum::MIN as f64);
+            const FIXNUM_MAX_TO_F: OrderedFloat<f64> = OrderedFloat(Fixnum::MAX as f64);
+
+            // `Fixnum::MAX as f64` rounds up to 2^55, which no longer fits: the upper bound is exclusive
+            if (FIXNUM_MIN_TO_F..FIXNUM_MAX_TO_F).contains(&f) {
+                Ok(Number::Fixnum(
+                    // Safety: We checked that the value is in range
+                    unsafe { Fixnum::build_with_unchecked(f.into_inner() as i64) },
+                ))
+            } else {
+                Ok(Number::Integer(arena_alloc!(
+                    Integer::try_from(classify_float(f.0)?).unwrap_or_else(|_| {
+                        unreachable!();
+                    }),
+                    arena
+                )))
+            }""", "rnd_i_float_arm(f, arena)", "R10")] + STD},
         fn("floor", extra=["unwrap_or_else"]), fn("ceiling"), fn("truncate"),
         {"fn": "sign", "impl": r"impl Number", "file": F_FORMS, "emit_name": "Number_sign",
          "rewrites": STD + [("replace", "*f == 0.0", "of64_is_zero(*f)", "R10")],
